@@ -304,3 +304,28 @@ Fixpoint run_applies_pooled (html : bool) (c : cache) (pool : bytes) (calls : li
       let '(c1, b, r) := apply_from html c pool (tc_scen x) (tc_step x) (tc_parts x) (tc_data x) in
       r :: run_applies_pooled html c1 b rest
   end.
+
+(* ---------- the variable tree of the scenario instance as the templater sees it ----------
+   templateVars = {"source": ..., "request": {<step>: {"preprocessor": {..}, "postprocessor": {..}}}}
+   (Model/Scenario.v keeps the request part as association lists of byte strings) *)
+Definition s_source : bytes := [115;111;117;114;99;101]%N.
+Definition s_request : bytes := [114;101;113;117;101;115;116]%N.
+Definition s_preproc : bytes := [112;114;101;112;114;111;99;101;115;115;111;114]%N.
+Definition s_postproc : bytes := [112;111;115;116;112;114;111;99;101;115;115;111;114]%N.
+Definition s_tok : bytes := [116;111;107]%N.
+Definition s_id : bytes := [105;100]%N.
+
+Definition tval_of_vars (m : list (bytes * bytes)) : tval :=
+  TMap (map (fun p => (fst p, TStr (snd p))) m).
+Definition tval_of_stepvars (sv : stepvars bytes) : tval :=
+  TMap ((match sv_pre sv with Some m => [(s_preproc, tval_of_vars m)] | None => [] end)
+        ++ (match sv_post sv with Some m => [(s_postproc, tval_of_vars m)] | None => [] end)).
+Definition tval_of_reqmap (m : reqmap bytes) : tval :=
+  TMap (map (fun p => (fst p, tval_of_stepvars (snd p))) m).
+Definition tval_of_tree (src : tval) (t : ctree) : tval :=
+  TMap [(s_source, src); (s_request, tval_of_reqmap (t_req t))].
+
+(* the X-Ref header templates of the scenario instance *)
+Definition ref_tmpl (r : bytes) : list piece := [PChain [s_request; r; s_postproc; s_tok]].
+Definition refbad_tmpl (r : bytes) : list piece :=
+  [PLit [118;61]%N; PChain [s_request; r; s_postproc; s_tok; s_id]].
